@@ -281,10 +281,22 @@ func c18absLess(a, b int64) bool {
 // reference schema (compiled once from the YANG sources)
 
 var (
-	c18Once   sync.Once
-	c18Leaves []*core.RefLeaf
-	c18Err    error
+	c18Once      sync.Once
+	c18Leaves    []*core.RefLeaf
+	c18Err       error
+	c18RevOnce   sync.Once
+	c18RevLeaves []*core.RefLeaf
+	c18RevErr    error
 )
+
+// c18RevRefLeaves: the leaves of the second revision of module vt (package vtrs, schemas/rev): the same
+// leaves, but typedef color and identity BASE have one more member each, numbered differently.
+func c18RevRefLeaves(c *core.Ctx) ([]*core.RefLeaf, error) {
+	c18RevOnce.Do(func() {
+		c18RevLeaves, c18RevErr = core.RefLoadLeaves(c.VerifDir+"/schemas", []string{"rev/vt.yang"}, "vt", "top")
+	})
+	return c18RevLeaves, c18RevErr
+}
 
 func c18RefLeaves(c *core.Ctx) ([]*core.RefLeaf, error) {
 	c18Once.Do(func() {
@@ -485,7 +497,27 @@ func runC18(c *core.Ctx) {
 		cs c18Case
 	}
 	var jobs []job
-	for _, p := range pkgs {
+	// vtrs (second revision of vt, same Go type names, other numbering) decodes the leaves that carry
+	// enumeration / identityref values in the same process: a decoder table shared between packages by
+	// type NAME gives one of the two packages the other's values
+	if rp := core.AnyPkgByName("vtrs"); rp != nil {
+		rl, err := c18RevRefLeaves(c)
+		if err != nil {
+			c.R.Violation("reference-error:rev-schema", err.Error(), nil)
+			return
+		}
+		for _, l := range rl {
+			if sh := l.Shape(); !strings.Contains(sh, "enumeration") && !strings.Contains(sh, "identityref") {
+				continue
+			}
+			for _, a := range jatoms {
+				jobs = append(jobs, job{rp, l, c18Case{Pkg: rp.Name, Leaf: l.Name, Entry: "unmarshal", JSON: a}})
+				jobs = append(jobs, job{rp, l, c18Case{Pkg: rp.Name, Leaf: l.Name, Entry: "setnode-json", JSON: a}})
+			}
+		}
+		pkgs = append(pkgs, rp)
+	}
+	for _, p := range pkgs[:2] {
 		if p == nil {
 			c.R.Violation("harness-error:missing-package", "vtus/vtuw not registered", nil)
 			return
@@ -576,10 +608,13 @@ func replayC18(c *core.Ctx, raw []byte) (bool, string) {
 		return false, err.Error()
 	}
 	leaves, err := c18RefLeaves(c)
+	if cs.Pkg == "vtrs" {
+		leaves, err = c18RevRefLeaves(c)
+	}
 	if err != nil {
 		return false, err.Error()
 	}
-	p := core.PkgByName(cs.Pkg)
+	p := core.AnyPkgByName(cs.Pkg)
 	if p == nil {
 		return false, "unknown package " + cs.Pkg
 	}
